@@ -45,13 +45,13 @@ def same_outcome(a: Obs, b: Obs, strict_order: bool = True) -> Optional[str]:
 
 
 # ------------------------------------------------------------------------------------ C07
-def make_c07(spec_factory: Any, k_runs: int, beh_kw: Optional[Dict[str, Any]] = None) -> Any:
+def make_c07(spec_factory: Any, k_runs: int, beh_kw: Optional[Dict[str, Any]] = None, collab: bool = False) -> Any:
     def mk() -> Any:
         spec = spec_factory()
         set_pools()
 
         def h(sym: Any) -> Tuple[str, Dict[str, Any]]:
-            cfg = Cfg(rev_taskset=False)
+            cfg = Cfg(rev_taskset=False, events=collab, store=collab)
             chart = build_chart(spec, cfg)
             snap0 = graph_snapshot(chart.entrypoint)
             label = None
@@ -118,15 +118,21 @@ for name, f, k, durs in [
                  doc=doc(name, SYM7, {"bounds": "%d sequential runs on one chart; symbolic durations for %s" % (k, sorted(durs) or "no node")})))
 
 
+register(Job("C07", "rhombus_with_collaborators", make_c07(lambda: C.rhombus(True), 2, {"sym_dur": False}, collab=True),
+             tier="quick", budget_s=300, goals=("mixed_history",),
+             doc=doc("rhombus with a recording event manager and artifact store on the chart", SYM7,
+                     {"bounds": "2 runs; every run must get its own event-manager and store objects"})))
+
+
 # ------------------------------------------------------------------------------------ C08
 def make_c08(spec_factory: Any, share: str = "chart", beh_kw: Optional[Dict[str, Any]] = None,
-             cancel: Optional[int] = None) -> Any:
+             cancel: Optional[int] = None, collab: bool = False) -> Any:
     def mk() -> Any:
         spec = spec_factory()
         set_pools()
 
         def h(sym: Any) -> Tuple[str, Dict[str, Any]]:
-            cfg = Cfg(rev_taskset=False)
+            cfg = Cfg(rev_taskset=False, events=collab, store=collab)
             behs = [Behaviour(sym, spec, run="r%d" % i, **(beh_kw or {})) for i in range(2)]
             if share == "chart":
                 ch = build_chart(spec, cfg)
@@ -215,3 +221,8 @@ register(Job("C08", "rhombus_cancel_first", make_c08(lambda: C.rhombus(False), "
              tier="quick", budget_s=400, goals=("first_run_cancelled",),
              parts=[{"cancel_at": i} for i in range(21)],
              doc=doc("rhombus, first run cancelled at a loop iteration 0..20 (one part each)", SYM8)))
+
+register(Job("C08", "rhombus_with_collaborators", make_c08(_rhombus_b, "chart", {"dur_nodes": {"B"}}, collab=True), tier="quick",
+             budget_s=300, parts=_parts2([("r0.B.kind0", 2), ("r1.B.kind0", 2)]), goals=("one_fails_other_succeeds",),
+             doc=doc("rhombus with a recording event manager and artifact store, two overlapping runs", SYM8,
+                     {"bounds": "every run must get its own event-manager and store objects"})))
